@@ -47,7 +47,9 @@ def sent(loc):
 
 
 def build_capsule():
-    top = tempfile.mkdtemp(prefix="vf-capsule-")
+    # the document root has a known name ("caproot"): a request may climb above the root and come back in through it
+    top = os.path.join(tempfile.mkdtemp(prefix="vf-capsule-"), "caproot")
+    os.makedirs(top)
     for d, files in CAPSULE.items():
         os.makedirs(os.path.join(top, *d), exist_ok=True)
         for f in files:
@@ -155,7 +157,7 @@ def main(pid="C05", rep=None, finish=True):
         if not r.ok:
             raise tlc.TLCError("design variant of CertAuth violates %s" % r.violated)
         dev = tlc.expect_caught("MC_CertAuth", "MC_CertAuth.cfg", {"DevMatchRawPath": ["AppliedToServed"],
-                                "DevEmptyListMeansNoList": ["AppliedToServed"]}, timeout=600)
+                                "DevEmptyListMeansNoList": ["AppliedToServed"], "DevClimbAndReturn": ["AppliedToServed"]}, timeout=600)
         rep.set("deviation_selftests", [{"deviation": d, "caught_by": c} for d, c, _ in dev])
         for d, c, v in dev:
             if c is None:
@@ -210,6 +212,9 @@ def main(pid="C05", rep=None, finish=True):
         for _ in range(12000 if thorough else 2500):
             rules = rnd.choice(rule_lists)
             toks = [rnd.choice(alphabet) for _ in range(rnd.randint(4, 6))]
+            if rnd.random() < 0.4:
+                # above the document root and back in through its own name, then an enumerated path
+                toks = [rnd.choice(["..", "%2e%2e"]), "caproot"] + list(rnd.choice(cases)["path"])
             trailing = rnd.random() < 0.4
             cert = rnd.choice(["none", "c1", "c2"])
             vname = rnd.choice(["objects", "toml"])
@@ -268,7 +273,7 @@ def main(pid="C05", rep=None, finish=True):
     finally:
         asyncio.set_event_loop(None)
         loop.close()
-        shutil.rmtree(root, ignore_errors=True)
+        shutil.rmtree(os.path.dirname(root) if os.path.basename(root) == "caproot" else root, ignore_errors=True)
 
 
 def tls_pass(rep, rnd, root, fps_unused):
